@@ -80,6 +80,20 @@ let handle line =
          | None -> " CHAINS -1" in
        Printf.sprintf "NOCAND %s %d %s G %s" (cl_hex nm) (List.length sp) (String.concat " " (List.map print_clause sp)) (print_graph e g) ^ chains ^ trace g
      | CFatal er -> "FATAL " ^ err_class er ^ " " ^ err_detail er)
+  | "K" ->
+    (* the hypothesis of the C05 whole-compile theorems (ReproP.consistentb) on a stack case: pins = what the FIRST layer
+       (the solution) records, inputs = the input containers; same token layout as "S" *)
+    let _fuel = next_int st in
+    let _e = next_env st in
+    let rs = next_list st (fun st -> let ap = next_bool st in let src = next_bool st in let u = next_universe st in
+                                     ((if src then mark_source u else u), ap)) in
+    let inputs = next_list st next_dist in
+    let cons = next_opt st (fun st -> next_list st next_dist) in
+    (match rs, cons with
+     | (sol, _) :: _, None ->
+       let pins = List.concat (List.map (fun (_, cands) -> List.map (fun c -> c.cdist) cands) sol) in
+       if consistentb pins inputs then "T" else "F"
+     | _, _ -> "F")
   | "Q" ->
     let cs = next_list st next_clause in
     (match is_possible cs with PTrue -> "T" | PFalse -> "F" | PValueError -> "V" | PAmbiguous -> "A")
